@@ -24,6 +24,16 @@ Exactness conditions (checked per call site, otherwise the site is left alone):
     callee never rebinds are substituted directly; a local that is returned into the identically named target keeps
     its name unless the caller reads it in a handler / finally enclosing the call.
 Formatting a value (f-string field, str.format argument) is assumed not to change analysed state.
+
+Canonical forms applied besides inlining (each exact under the condition stated at its definition): f-strings -> str.format; new
+named literals -> the literal; delegating static methods folded back; bare return out of a final loop -> break; acquire / try /
+finally-release -> with; `T = [.. if f(w := e)]` -> the loop; class-level `name = staticmethod(f)` -> the method; nested
+`def f(): return e` used once -> lambda, applied in place when called right there (guard-clause bodies become one conditional
+expression, and / or / not where only the truth is used); private named tuples that never escape -> one local per field; plain
+loads forwarded into their single use (attribute reads taken as effect-free); `f(*t)` with t a tuple display -> f(a, b);
+`getattr(x, 'n')` -> x.n; lambda locals applied at their calls; `a, b = x, y` split (also conditional / attribute targets);
+`for .. break .. else: <exit>` + terminating tail -> early exits; `if c: T = a else: T = b` -> conditional expression,
+`while True: if c: break` -> `while not c`; `f(a) if c else g(a)` -> `(f if c else g)(a)`.  Last step: role outlining (outline.py).
 """
 import ast
 import copy
